@@ -202,6 +202,16 @@ class EvolveAppTask(BaseEvolutionTask):
             applied_migrations = \
                 state['migration_executor'].loader.extra_applied_migrations
 
+            # The initial migrations in the pre-migration plan were only
+            # added to this list to plan what comes after them. They're
+            # about to be executed, and will be recorded at that point.
+            pre_migration_targets = state['pre_migration_targets']
+
+            if applied_migrations and pre_migration_targets:
+                pre_migrations = MigrationList()
+                pre_migrations.add_migration_targets(pre_migration_targets)
+                applied_migrations = applied_migrations - pre_migrations
+
             if applied_migrations:
                 record_applied_migrations(connection=evolver.connection,
                                           migrations=applied_migrations)
